@@ -34,7 +34,7 @@ def plan(tier, seed):
                          {'name': 'last_match_wins', 'cfg': {'ext': '.pt', 'dirs': 2}},
                          {'name': 'no_break_after_match', 'cfg': {'ext': '.pt', 'dirs': 2}},
                          {'name': 'cache_by_class_only', 'cfg': {'ext': '.pt', 'dirs': 2}}])
-    zj = [{'ext': ext, 'dirs': d, 'getitem': g, 'loads': 3 if d == 2 else 2} for ext in ('.pt', None)
+    zj = [{'ext': ext, 'dirs': d, 'getitem': g, 'loads': 3 if (d == 2 and not quick) else 2} for ext in ('.pt', None)
           for d in ((2,) if quick else (2, 3)) for g in (False, True)]
     famZ = dict(name='loader_histories', module=H, fn='zpt_loads', jobs=zj, timeout=900, vacuity=1,
                 mutants=[{'name': 'shared_search_path', 'cfg': {'ext': '.pt', 'dirs': 2}}])
@@ -71,7 +71,7 @@ def plan(tier, seed):
                 'extension, absolute, package-relative) x a second spec, 1-3 search directories, default extension set '
                 '(with and without the leading dot) / unset, every existence pattern of the candidate files (6 symbolic '
                 'bits; with 3 directories the third repeats the first), three loads per history; zpt loader: histories of '
-                '3 loads over 4 names x xml/text format through load()/[], 2 directories (thorough: also 2 loads over 3 directories), all existence patterns; '
+                '2 loads (thorough: 3, and 2 over 3 directories) over 4 names x xml/text format through load()/[], 2 directories, all existence patterns; '
                 'load: expressions (static and ${}-computed name) in a file template living in one of 3 directories, '
                 '1-3 search directories, all existence patterns. Outside: real file systems and clocks (modification '
                 'times are fresh by assumption: a change that keeps the old mtime is invisible by design), templates '
